@@ -136,6 +136,51 @@ Theorem C14_lawful_instances :
 Proof. exact lawful_instances. Qed.
 Print Assumptions C14_lawful_instances.
 
+(* chained transformations: the new variable is transformed again (any number of links, any mix of
+   entry points and argument forms).  ls / args / bs are listed newest first; compose bs maps the newest
+   variable to the original one.  Every variable of the chain is the image of the newest one under the
+   composed forwards, the newest log-density is the original one at the composed image plus ln|(compose)'|
+   (= the sum of the links' log-Jacobians, C14_lawful_compose). *)
+Theorem C14_chained_change_of_variables :
+  forall (P A : Type) (D : P -> dist_inst) (ls : list (@link A)) p args bs T X t,
+  chain_resolve D ls p args = Some bs -> lawful_list bs T X -> T t ->
+  exists d, is_derive (fwd (compose bs)) t d /\ d <> 0
+    /\ chain_logpdf D ls p args t = Some (d_logpdf (D p) (fwd (compose bs) t) + ln (Rabs d))
+    /\ chain_up D ls p args t = Some (images bs t)
+    /\ last (images bs t) t = fwd (compose bs) t
+    /\ X (fwd (compose bs) t).
+Proof. exact @chained_change_of_variables. Qed.
+Print Assumptions C14_chained_change_of_variables.
+
+Theorem C14_chained_value_preserved :
+  forall (P A : Type) (D : P -> dist_inst) (ls : list (@link A)) p args bs T X v0,
+  chain_resolve D ls p args = Some bs -> lawful_list bs T X -> X v0 ->
+  exists t0, chain_init D ls p args v0 = Some t0 /\ T t0 /\ t0 = inv (compose bs) v0
+    /\ chain_up D ls p args t0 = Some (images bs t0)
+    /\ last (images bs t0) t0 = v0.
+Proof. exact @chained_value_preserved. Qed.
+Print Assumptions C14_chained_value_preserved.
+
+Theorem C14_lawful_compose : forall bs T X, lawful_list bs T X -> lawful (compose bs) T X.
+Proof. exact lawful_compose. Qed.
+Print Assumptions C14_lawful_compose.
+
+Theorem C14_chained_no_default_raises :
+  forall (P A : Type) (D : P -> dist_inst) (ls : list (@link A)) p args t,
+  List.length ls = List.length args -> chain_resolve D ls p args = None -> chain_logpdf D ls p args t = None.
+Proof. exact @chain_none. Qed.
+Print Assumptions C14_chained_no_default_raises.
+
+Theorem C14_chained_flags : forall ks v l,
+  chain_s ks v = inr l ->
+  exists front newest, l = front ++ [newest]
+    /\ List.length front = List.length ks
+    /\ v_parameter newest = v_parameter v
+    /\ (ks <> [] -> v_has_dist newest = true /\ v_weak newest = false /\ v_auto newest = false)
+    /\ List.Forall (fun w => v_parameter w = false /\ v_has_dist w = false /\ v_weak w = true /\ v_auto w = false) front.
+Proof. exact chained_flags. Qed.
+Print Assumptions C14_chained_flags.
+
 (* the hypotheses are satisfiable *)
 Example C14_ex_change_of_variables :
   exists d, is_derive (fwd bRecipSoftplus) (1 / 2) d /\ d <> 0
@@ -184,3 +229,25 @@ Proof. exact ex_auto_transform. Qed.
 Example C14_ex_auto_transform_name_clash :
   build_model_s [ex_sigma; mkVar "sigma_transformed" false false false false false false] = inl EDupName.
 Proof. exact ex_auto_transform_name_clash. Qed.
+
+Example C14_ex_chained :
+  exists d, is_derive (fwd (compose [bScale 2; bExp])) (1 / 4) d /\ d <> 0
+    /\ chain_logpdf dGamma [mkLink PVar (@BInst unit (bScale 2)); mkLink PVar (BInst bExp)] (2, 1, ln 1) [tt; tt] (1 / 4)
+       = Some (gamma_logpdf 2 1 (ln 1) (exp (2 * (1 / 4))) + ln (Rabs d))
+    /\ chain_up dGamma [mkLink PVar (@BInst unit (bScale 2)); mkLink PVar (BInst bExp)] (2, 1, ln 1) [tt; tt] (1 / 4)
+       = Some [2 * (1 / 4); exp (2 * (1 / 4))]
+    /\ last [2 * (1 / 4); exp (2 * (1 / 4))] (1 / 4) = exp (2 * (1 / 4))
+    /\ pos_R (exp (2 * (1 / 4))).
+Proof. exact ex_chained. Qed.
+
+Example C14_ex_chained_default :
+  chain_resolve dGamma [mkLink PVar (@BDefault unit); mkLink PVar (BInst bExp)] (2, 1, ln 1) [tt; tt]
+  = Some [Chain (Invert bExp) bSoftplus; bExp].
+Proof. exact ex_chained_default. Qed.
+
+Example C14_ex_chained_flags :
+  chain_s [(true, KInst false); (true, KCls true)] ex_sigma
+  = inr [mkVar "sigma" false false false true false false;
+         mkVar "sigma_transformed" false false false true false false;
+         mkVar "sigma_transformed_transformed" true false true false false true].
+Proof. exact ex_chained_flags. Qed.
